@@ -14,9 +14,10 @@ RULE = ('separable states built by construction: dims in {(2,2),(2,3),(3,2),(3,3
         'finite and zero up to the rounding of the formula. SDP criterion is_ABk_symmetric_ext: k=1..3 over the flag lattice (quick: (2,2) all flags, (2,3)/(3,3) k<=2). '
         'Non-trivial = generic mixture or boundary state (rank < D) or >=3 parties; distinct = (criterion family, dims, terms bucket, vector kind, weight kind).'
         ' States are also handed over in other memory layouts (Fortran, strided, read-only), in real and integer dtypes, and the dimension list as a negative-stride integer array.')
+RULE += ' A fifth of the planted cases run after a call with another tolerance (eps=1e-3 on the maximally mixed state of the same size): verdicts must not depend on the call history.'
 ASSUMPTIONS = ['zero means zero up to the rounding of the formula: concurrence <= 1e-7 (square root of eigenvalue differences), eof <= 1e-10, gme <= 1e-12, negativity <= 1e-9',
                'SDP verdicts are taken as returned (solver tolerance); a cvxpy SolverError inside is_ABk_symmetric_ext is reported by the library as False and therefore judged',
-               'criteria are used with their default eps']
+               'the judged calls use the default eps (the preceding history call uses eps=1e-3 on the maximally mixed state, which every criterion must accept)']
 
 DIMS = [[2, 2], [2, 3], [3, 2], [3, 3], [2, 4], [4, 2], [2, 2, 2], [2, 3, 2], [3, 2, 2], [2, 2, 3], [2, 2, 2, 2]]
 
